@@ -38,8 +38,8 @@ def judge(rep, src, sub):
             f = dict(re.findall(r'(\w+)=(-?\d+)', first[0])) if first else {}
             when = 'parse' if stage == 'parse' else 'after-export'
             if cls == 'root':
-                if sub:
-                    continue            # parse_substring: the root's extent is not promised (DESIGN 9)
+                if sub or stage != 'parse':
+                    continue            # parse_substring: the root's extent is not promised (DESIGN 9); exports do not move the root
                 st, ln = int(f.get('start', 0)), int(f.get('len', 0))
                 tail = src[st + ln:] if st == 0 and ln <= len(src) else None
                 if tail is not None and tail.strip(b'\r\n \t') == b'':
@@ -52,6 +52,10 @@ def judge(rep, src, sub):
                     # the writers re-parent the content chain of an inline note (token_new_parent sets prev = NULL)
                     # while it is still linked from the bracket: one site, whatever the first content token is
                     key = 'tree:prev:after-export:inline-note-content-reparented:parent%s' % f.get('parent')
+                if cls == 'order' and when == 'parse' and f.get('prevtype') in ('204', '205'):
+                    # recursive_parse_list_item re-inserts the list marker in front of a block whose start still
+                    # includes the markers of the enclosing levels ('-  -  - x'): one site, any block type
+                    key = 'tree:order:parse:block-after-reinserted-list-marker'
                 if sub:
                     key += ':substring'
                 keys.append(key)
